@@ -1,0 +1,230 @@
+//go:build verif
+
+package libinjection
+
+// Read-only accessors used by the external runtime-verification harness.
+// This file is compiled only with `-tags verif`. It adds exported wrappers
+// that drive the existing unexported functions and copy out what they
+// computed; it changes no existing behaviour.
+
+// VerifSQLFlag* mirror the unexported parsing-mode flags.
+const (
+	VerifSQLFlagQuoteNone   = sqliFlagQuoteNone
+	VerifSQLFlagQuoteSingle = sqliFlagQuoteSingle
+	VerifSQLFlagQuoteDouble = sqliFlagQuoteDouble
+	VerifSQLFlagAnsi        = sqliFlagSQLAnsi
+	VerifSQLFlagMysql       = sqliFlagSQLMysql
+)
+
+// VerifH5Ctx* mirror the unexported HTML5 start contexts.
+const (
+	VerifH5CtxData        = html5FlagsDataState
+	VerifH5CtxNoQuote     = html5FlagsValueNoQuote
+	VerifH5CtxSingleQuote = html5FlagsValueSingleQuote
+	VerifH5CtxDoubleQuote = html5FlagsValueDoubleQuote
+	VerifH5CtxBackQuote   = html5FlagsValueBackQuote
+)
+
+// VerifSQLToken is a copy of one sqliToken plus the scan offsets observed
+// around the tokenize() call that produced it (Before/After are -1 when the
+// token comes from fold(), which makes many tokenize() calls).
+type VerifSQLToken struct {
+	Category byte
+	Pos      int
+	Len      int
+	Count    int
+	Val      string
+	StrOpen  byte
+	StrClose byte
+	Before   int
+	After    int
+}
+
+// VerifSQLTrace is what one run of the tokenizer or folder left behind.
+type VerifSQLTrace struct {
+	Tokens           []VerifSQLToken
+	FinalPos         int
+	Capped           bool
+	StatsTokens      int
+	StatsFolds       int
+	StatsCommentDDX  int
+	StatsCommentHash int
+}
+
+func verifCopyToken(t *sqliToken, before, after int) VerifSQLToken {
+	return VerifSQLToken{
+		Category: t.category,
+		Pos:      t.pos,
+		Len:      t.len,
+		Count:    t.count,
+		Val:      t.val,
+		StrOpen:  t.strOpen,
+		StrClose: t.strClose,
+		Before:   before,
+		After:    after,
+	}
+}
+
+func (s *sqliState) verifStats(tr *VerifSQLTrace) {
+	tr.FinalPos = s.pos
+	tr.StatsTokens = s.statsTokens
+	tr.StatsFolds = s.statsFolds
+	tr.StatsCommentDDX = s.statsCommentDDX
+	tr.StatsCommentHash = s.statsCommentHash
+}
+
+// VerifSQLTokens runs tokenize() to exhaustion on a fresh state, the way the
+// repository's own token fixtures do, and records every token together with
+// the scan offset before and after the call. The loop is capped at
+// len(input)+2 steps; Capped reports that the cap was hit.
+func VerifSQLTokens(input string, flags int) VerifSQLTrace {
+	var tr VerifSQLTrace
+	s := new(sqliState)
+	sqliInit(s, input, flags)
+	limit := len(input) + 2
+	for i := 0; ; i++ {
+		if i >= limit {
+			tr.Capped = true
+			break
+		}
+		before := s.pos
+		if !s.tokenize() {
+			break
+		}
+		tr.Tokens = append(tr.Tokens, verifCopyToken(s.current, before, s.pos))
+	}
+	s.verifStats(&tr)
+	return tr
+}
+
+// VerifSQLFold runs fold() on a fresh state and returns the folded tokens.
+func VerifSQLFold(input string, flags int) VerifSQLTrace {
+	var tr VerifSQLTrace
+	s := new(sqliState)
+	sqliInit(s, input, flags)
+	n := s.fold()
+	for i := 0; i < n && i < len(s.tokenVec); i++ {
+		tr.Tokens = append(tr.Tokens, verifCopyToken(&s.tokenVec[i], -1, -1))
+	}
+	if n > len(s.tokenVec) {
+		tr.Capped = true
+	}
+	s.verifStats(&tr)
+	return tr
+}
+
+// VerifSQLPass is the observation of one parsing context on a fresh state.
+type VerifSQLPass struct {
+	Fingerprint      string
+	Blacklisted      bool
+	Verdict          bool
+	Reparse          bool
+	Tokens           []VerifSQLToken
+	StatsTokens      int
+	StatsFolds       int
+	StatsCommentDDX  int
+	StatsCommentHash int
+}
+
+// VerifSQLPassOn fingerprints input under flags on a fresh state and asks the
+// blacklist/whitelist decision for it, exactly as one step of check() does.
+func VerifSQLPassOn(input string, flags int) VerifSQLPass {
+	var p VerifSQLPass
+	s := new(sqliState)
+	sqliInit(s, input, 0)
+	p.Fingerprint = s.sqliFingerprint(flags)
+	p.Blacklisted = s.blacklist()
+	p.Verdict = s.lookupWord(sqliLookupFingerprint, s.fingerprint) != byteNull
+	p.Reparse = s.reparseAsMySQL()
+	for i := 0; i < len(s.fingerprint) && i < len(s.tokenVec); i++ {
+		p.Tokens = append(p.Tokens, verifCopyToken(&s.tokenVec[i], -1, -1))
+	}
+	p.StatsTokens = s.statsTokens
+	p.StatsFolds = s.statsFolds
+	p.StatsCommentDDX = s.statsCommentDDX
+	p.StatsCommentHash = s.statsCommentHash
+	return p
+}
+
+// VerifSQLKeywords returns a copy of the keyword / fingerprint table.
+func VerifSQLKeywords() map[string]byte {
+	out := make(map[string]byte, len(sqlKeywords))
+	for k, v := range sqlKeywords {
+		out[k] = v
+	}
+	return out
+}
+
+// VerifH5Token is one HTML5 token: type, offset of its first byte in the
+// input (computed from the suffix slice the tokenizer keeps), its length, and
+// the scan offset after the step that produced it.
+type VerifH5Token struct {
+	Type int
+	Off  int
+	Len  int
+	Pos  int
+}
+
+// VerifH5Tokens runs the tokenizer from start context ctx until it stops or
+// limit steps were taken.
+func VerifH5Tokens(input string, ctx int, limit int) ([]VerifH5Token, bool) {
+	var out []VerifH5Token
+	h := new(h5State)
+	h.init(input, ctx)
+	for i := 0; ; i++ {
+		if i >= limit {
+			return out, true
+		}
+		if !h.next() {
+			break
+		}
+		out = append(out, VerifH5Token{
+			Type: h.tokenType,
+			Off:  len(input) - len(h.tokenStart),
+			Len:  h.tokenLen,
+			Pos:  h.pos,
+		})
+	}
+	return out, false
+}
+
+// VerifXSSCtx is the verdict of one injection context.
+func VerifXSSCtx(input string, ctx int) bool { return isXSS(input, ctx) }
+
+// VerifIsBlackTag exposes isBlackTag.
+func VerifIsBlackTag(s string) bool { return isBlackTag(s) }
+
+// VerifIsBlackAttr exposes isBlackAttr.
+func VerifIsBlackAttr(s string) int { return isBlackAttr(s) }
+
+// VerifIsBlackURL exposes isBlackURL.
+func VerifIsBlackURL(s string) bool { return isBlackURL(s) }
+
+// VerifHTMLDecode exposes htmlDecodeByteAt.
+func VerifHTMLDecode(s string) (int, int) { return htmlDecodeByteAt(s) }
+
+// VerifNameType is a copy of one stringType entry.
+type VerifNameType struct {
+	Name string
+	Type int
+}
+
+// VerifBlackTags returns a copy of blackTags.
+func VerifBlackTags() []string { return append([]string(nil), blackTags...) }
+
+func verifCopyNameTypes(in []stringType) []VerifNameType {
+	out := make([]VerifNameType, 0, len(in))
+	for _, e := range in {
+		out = append(out, VerifNameType{Name: e.name, Type: e.attributeType})
+	}
+	return out
+}
+
+// VerifBlacks returns a copy of blacks.
+func VerifBlacks() []VerifNameType { return verifCopyNameTypes(blacks) }
+
+// VerifBlackEvents returns a copy of blackEvents.
+func VerifBlackEvents() []VerifNameType { return verifCopyNameTypes(blackEvents) }
+
+// VerifHexMap returns a copy of gsHexDecodeMap.
+func VerifHexMap() []int { return append([]int(nil), gsHexDecodeMap...) }
